@@ -647,6 +647,12 @@ def arith_cases(cases):
                 elif code == 2:
                     o["raw"] = res
                 r["out"] = o
+            elif c["kind"] == "isb":
+                # is/2 with the left-hand side already bound to a number (directly, or through a variable bound earlier)
+                tmpl = "t :- %s is %s.\n" if not c.get("via_var") else "t :- X = %s, X is %s.\n"
+                db = eng.prepare(PrologString(tmpl % (c["nt"], c["text"])))
+                code, res = _q(db, eng, Term("t"))
+                r["out"] = code
             elif c["kind"] == "cmp":
                 db = eng.prepare(PrologString("t :- %s %s %s.\n" % (c["xt"], c["op"], c["yt"])))
                 code, res = _q(db, eng, Term("t"))
